@@ -20,6 +20,8 @@ type Repo struct {
 	Dir     string
 	Fset    *token.FileSet
 	Pkgs    []*packages.Package
+	// Normalised: this is the helper-inlined view (normalise.go); positions refer to the inlined text
+	Normalised bool
 	ByName  map[string]*packages.Package // package name -> package ("main", "derive", "equal", ...)
 	Decls   map[*types.Func]*FuncInfo
 	Plugins []string // plugin package names, sorted
@@ -51,10 +53,13 @@ func cleanEnv(extra ...string) []string {
 	return append(env, extra...)
 }
 
-func loadRepo() (*Repo, error) {
+func loadRepo() (*Repo, error) { return loadRepoWith(nil) }
+
+// loadRepoWith loads the generator packages, with the given file contents replacing what is on disk (go/packages overlay).
+func loadRepoWith(overlay map[string][]byte) (*Repo, error) {
 	dir := repoDir()
 	try := func(env []string) ([]*packages.Package, error) {
-		cfg := &packages.Config{Mode: packages.LoadSyntax, Dir: dir, Env: env, Tests: false}
+		cfg := &packages.Config{Mode: packages.LoadSyntax, Dir: dir, Env: env, Tests: false, Overlay: overlay}
 		pkgs, err := packages.Load(cfg, ".", "./derive/...", "./plugin/...")
 		if err != nil {
 			return nil, err
@@ -120,6 +125,9 @@ func (r *Repo) pos(p token.Pos) string {
 	rel, err := filepath.Rel(r.Dir, ps.Filename)
 	if err != nil {
 		rel = ps.Filename
+	}
+	if r.Normalised {
+		return fmt.Sprintf("%s:%d:%d (line of the helper-inlined view)", rel, ps.Line, ps.Column)
 	}
 	return fmt.Sprintf("%s:%d:%d", rel, ps.Line, ps.Column)
 }
